@@ -47,6 +47,14 @@ TESTS = {
                                functions=['tarpc/src/transport/channel.rs::unbounded, bounded, UnboundedChannel, Channel (through the public API)'],
                                bound='every script of <= 7 events over {end A|B writes its next message, end A|B polls its stream, end A|B is dropped} for unbounded, bounded(1) and bounded(2) (1007766 runs); oracle = two FIFO queues: every accepted message is read exactly once, unchanged, in order; Pending while the peer is alive; end-of-stream only after the last message once the peer was dropped',
                                why='replay search: source of concrete failing inputs when the deductive check of unit transports is undecided or fails'),
+    'client_wakeups_bounded': dict(file='client_wakeups_bounded', fn='wake_driven_equals_eager',
+                                   functions=['tarpc/src/client.rs::RequestDispatch, Channel::call (through the public API; tasks polled only when their waker fired)'],
+                                   bound='every event sequence <= 6 (thorough: 7) over {call, reply 0|1, abandon 0|1, transport becomes writable, last handle dropped} x in-flight maximum 1|2 x writable from the start|not; each scenario run wake-driven and with unsolicited polls, outcomes (call results, dispatch outcome, wire) must coincide; watchdog on readiness polls within one poll',
+                                   why='replay search for the liveness side of C02 (the deductive part is only the safety proxy Pending => wake source armed): a lost wakeup shows as less progress in the wake-driven run'),
+    'server_wakeups_bounded': dict(file='server_wakeups_bounded', fn='wake_driven_equals_eager',
+                                   functions=['tarpc/src/server.rs::BaseChannel, Requests, InFlightRequest::execute; requests_per_channel.rs::MaxRequests (through the public API; tasks polled only when their waker fired)'],
+                                   bound='every event sequence <= 5 (thorough: 6) over {Req 7, Req 8, Cancel 7, handler #0|#1 finishes, sink becomes writable, inbound closes} x request limit none|1 x sink writable from the start|not; each scenario run wake-driven and with unsolicited polls, outcomes (wire, handler states, stream state) must coincide',
+                                   why='replay search for the liveness side of C02 on the server channel'),
     'channels_bounded': dict(file='channels_bounded', fn='channels_per_key_scripts',
                              functions=['tarpc/src/server/limits/channels_per_key.rs::MaxChannelsPerKey, TrackedChannel, Tracker (through the public API: Incoming::max_channels_per_key over an mpsc listener of BaseChannels)'],
                              bound='every script of <= 9 events over {arrive key 0, arrive key 1, drop the k-th oldest live yielded channel (k<3), poll once} x n in {1,2} (118516 scripts); oracle = the property (admitted iff fewer than n yielded channels with the key are alive when the filter reaches the arrival)',
